@@ -390,6 +390,9 @@ var gmOtherKeys = []string{"ABCD", "SHUT", "WBAL", "ISOG", "STMP", "TICK", "VERS
 // gmBig: also generate payloads beyond 64 KiB (the C06 stream; they make the other streams slow)
 var gmBig bool
 
+// gmBigOneIn: how rare they are (the C09 stream is long and mostly damaged input: rarer there)
+var gmBigOneIn = 250
+
 // gmBigSensors: sensor payloads beyond 64 KiB (the C07 and C09 streams)
 var gmBigSensors bool
 
@@ -427,7 +430,7 @@ func gmLeaf(r *rng, s *sink) []byte {
 	if size*count > 2000 {
 		count = 2000 / size
 	}
-	if gmBig && r.chance(1, 250) {
+	if gmBig && r.chance(1, gmBigOneIn) {
 		// a payload around and beyond 64 KiB (size x repeat no longer fits 16 bits); half of them
 		// string-typed (their values are cut out of the payload by offset)
 		if r.chance(1, 2) {
@@ -531,7 +534,7 @@ func gmSensor(r *rng, s *sink) [][]byte {
 		}
 	}
 	nsamp := r.intn(5)
-	if gmBigSensors && r.chance(1, 300) {
+	if gmBigSensors && r.chance(1, gmBigOneIn+50) {
 		// a long recording interval: the sensor payload passes 64 KiB (size x repeat beyond 16 bits),
 		// also with the largest repeat counts there are
 		nsamp = pick(r, []int{65536/(raw.w*sens.w) + 1 + r.intn(50), 32768, 65535})
@@ -790,6 +793,9 @@ func genGM(cfg *config, r *rng, i int, s *sink) string {
 	gmLoadCaptures(cfg)
 	gmBig = cfg.prop == "C06" || cfg.prop == "C09"
 	gmBigSensors = cfg.prop == "C07" || cfg.prop == "C09"
+	if cfg.prop == "C09" {
+		gmBigOneIn = 900
+	}
 	stream := []string{"wf", "wf", "wf", "wf", "wf", "mut", "mut", "mutcap", "rand", "wf"}[i%10]
 	switch cfg.prop {
 	case "C09":
